@@ -48,7 +48,10 @@ TOKEN_SEEDS = ['a', '*', 'ns|a', '*|a', '|a', '#id', '.cls', '[a]', '[a=b]', '[a
                ':-soup-contains("x", y)', ':-soup-contains-own(x)', ':contains(x)', ':current(a)', ':host(a)',
                ':host-context(a)', ':host', 'a > b', 'a + b', 'a ~ b', 'a b', 'a, b', '&', ':scope', '::before', '@Pmedia',
                ':--custom', '/* c */ a /* d */', 'a\\:b', '\\31 a', 'a\\', '"', '[a="', ':is(', 'a,', ':defined',
-               ':placeholder-shown', ':in-range', ':out-of-range', ':indeterminate', ':read-only', ':any-link', ':local-link']
+               ':placeholder-shown', ':in-range', ':out-of-range', ':indeterminate', ':read-only', ':any-link', ':local-link',
+               # escapes against unusual neighbours inside strings and identifiers
+               '[title="\\41/**/"]', ':lang("\\65/* x */n")', ':-soup-contains("\\41/**/b", \\41/**/)', '[a="b\\\n"]', '#a\\41/**/', '[a=b \u017f]',
+               '[\\d800]', ':\\dfff', ':l\\61ng(en)', '[a="\\10FFFF\\110000"]']
 
 
 NSVARIANTS = [None, {}, {'ns': 'urn:x'}, {'': 'urn:x'}, {'ns': 'urn:x', 'svg': 'urn:y', '': ''}]
